@@ -76,7 +76,7 @@ def main():
             t0 = time.time()
             rc, out = sh("./check %s %s" % (c, tier), cwd=V, env={"VERIF_REPO": tree})
             lines = [l[:260] for l in out.splitlines() if re.match(r"(VIOLATION|INCONCLUSIVE|KNOWN-FINDING|C\d\d )", l)]
-            meta["checks"]["%s %s" % (c, tier)] = {"exit": rc, "detected": rc == 1, "wall_s": round(time.time() - t0, 1),
+            meta["checks"]["%s %s" % (c, tier)] = {"exit": rc, "detected": rc == 1 and "VIOLATION property=" in out, "wall_s": round(time.time() - t0, 1),
                                                      "first_lines": lines[:3], "clauses": sorted(set(re.findall(r"clause=(.*?) tags=", out)))[:8]}
         meta["detected_by"] = [k for k, v in meta["checks"].items() if v["detected"]]
     finally:
